@@ -20,6 +20,8 @@ pub mod c15;
 pub mod c16;
 #[cfg(feature = "net")]
 pub mod c17;
+#[cfg(feature = "net")]
+pub mod c18;
 pub mod c19;
 pub mod c20;
 
@@ -44,6 +46,8 @@ pub fn dispatch(a: &Args) -> Option<Report> {
         "C16" => c16::run(a),
         #[cfg(feature = "net")]
         "C17" => c17::run(a),
+        #[cfg(feature = "net")]
+        "C18" => c18::run(a),
         "C19" => c19::run(a),
         "C20" => c20::run(a),
         _ => None,
